@@ -359,6 +359,14 @@ Proof.
   apply pair_in_In in Hp. rewrite Hp in H. cbn in H. apply pair_in_In. exact H.
 Qed.
 
+Lemma string_enforced p e :
+  p_kind p = KStr -> f_type p e = true -> String.eqb (p_jtype p) "string" = true ->
+  forall s, schema_allows_string e s = true /\ read_string p s = Some s.
+Proof.
+  intros Hk Ht Hj s. unfold schema_allows_string, read_string. rewrite Hk. split; [|reflexivity].
+  unfold f_type in Ht. apply andb_true_iff in Ht. destruct Ht as [Ht _]. apply String.eqb_eq in Ht. rewrite Ht. exact Hj.
+Qed.
+
 (* ---------- the pinned tree ---------- *)
 Open Scope string_scope.
 Definition pinned_accepted_names : list string := [
